@@ -5111,8 +5111,8 @@ func (p *Parser) parseDrop() *ast.DropQuery {
 			default:
 				p.nextToken() // skip unknown token
 			}
-		} else {
-			p.nextToken() // skip unknown token
+		} else if !p.currentIs(token.SEMICOLON) && !p.currentIs(token.EOF) {
+			p.nextToken() // skip unknown token, but never the end of the statement
 		}
 	}
 
